@@ -396,14 +396,19 @@ template <class Conn> static void deliver(Conn &c, const uint8_t *in, const uint
         delivered = cuts[k];
     }
 }
-// run(cuts, ncuts) for: one piece; two pieces split at every s in [lo, hi]; byte by byte
+// run(cuts, ncuts) for: one piece; two pieces split at every s in [lo, hi] (quick: only at lo and hi); byte by byte
 template <class F> static void forAllSegmentations(const unsigned n, unsigned lo, unsigned hi, F run)
 {
     uint8_t cuts[MAXIN];
     cuts[0] = n; run(cuts, 1);
     if (lo < 1) lo = 1;
     if (n < 2) hi = 0; else if (hi > n - 1) hi = n - 1;
-    for (unsigned s = lo; s <= hi; ++s) { cuts[0] = s; cuts[1] = n; run(cuts, 2); }
+    for (unsigned s = lo; s <= hi; ++s) {
+#ifndef VF_THOROUGH
+        if (s != lo && s != hi && n > 8) continue;   // short (fully symbolic) streams: every position
+#endif
+        cuts[0] = s; cuts[1] = n; run(cuts, 2);
+    }
     for (unsigned i = 0; i < n; ++i) cuts[i] = i + 1;
     if (n > 2) run(cuts, n);
 }
@@ -439,7 +444,7 @@ static void window(const Stream &s, unsigned &lo, unsigned &hi)
 #ifdef VF_THOROUGH
     lo = 1; hi = s.n;
 #else
-    lo = s.symLo; hi = s.symHi + 2;   // a read boundary before, between and up to two bytes after the symbolic bytes
+    lo = s.symLo; hi = s.symHi + 1;   // a read boundary right before the first and right after the last symbolic byte
 #endif
 }
 
@@ -449,10 +454,16 @@ static void configure(const int relaxed, const size_t maxReq, const size_t maxRe
     AnyP::UriScheme::Init();   // main(): "needs to be before arg parsing"
 }
 
-static int relaxedSetting()
+// relaxed_header_parser: 0 = off, 1 = on (default), -1 = on with warnings (differs from 1 only in debugs() levels).
+// Thorough: {-1,0,1} everywhere. Quick: {0,1} in the start-line, limit and fully symbolic entries (bothModes), the default (1) in
+// the others.
+static int relaxedSetting(const bool bothModes = true)
 {
-    // relaxed_header_parser: 0 = off, 1 = on (default), -1 = on with warnings (differs from 1 only in debugs() levels; thorough only)
-    return (int)vf_concretize(vf_range(T(1, 0), 2, "relaxed")) - 1;
+#ifdef VF_THOROUGH
+    return (int)vf_concretize(vf_range(0, 2, "relaxed")) - 1;
+#else
+    return bothModes ? (int)vf_concretize(vf_range(0, 1, "relaxed")) : 1;
+#endif
 }
 
 static void clientStream(const Stream &s, const unsigned bodyCap, const bool intercepted = true)
@@ -501,90 +512,99 @@ static void serverStream(const Stream &s)
 // ---------------------------------------------------------------------------------------------- families
 struct Tmpl { const char *s; unsigned n; };
 #define L(lit) {lit, sizeof(lit) - 1}
-static void clientFamilies(const Tmpl *t, const unsigned count, const unsigned bodyCap = 65536, const bool intercepted = true)
+static void clientFamilies(const Tmpl *t, const unsigned count, const bool bothModes, const unsigned bodyCap = 65536, const bool intercepted = true)
 {
-    configure(relaxedSetting(), 65536, 65536);
+    configure(relaxedSetting(bothModes), 65536, 65536);
     const Tmpl &f = t[count > 1 ? vf_concretize(vf_range(0, count - 1, "skeleton")) : 0];
     static Stream s; fill(s, f.s, f.n);
     clientStream(s, bodyCap, intercepted);
 }
-static void serverFamilies(const Tmpl *t, const unsigned count)
+static void serverFamilies(const Tmpl *t, const unsigned count, const bool bothModes)
 {
-    configure(relaxedSetting(), 65536, 65536);
+    configure(relaxedSetting(bothModes), 65536, 65536);
     const Tmpl &f = t[count > 1 ? vf_concretize(vf_range(0, count - 1, "skeleton")) : 0];
     static Stream s; fill(s, f.s, f.n);
     serverStream(s);
 }
-#define CLIENT(fn, ...) extern "C" void fn(void) { static const Tmpl t[] = {__VA_ARGS__}; clientFamilies(t, sizeof(t) / sizeof(*t)); }
-#define CLIENT_CAP(fn, cap, ...) extern "C" void fn(void) { static const Tmpl t[] = {__VA_ARGS__}; clientFamilies(t, sizeof(t) / sizeof(*t), cap); }
-#define CLIENT_FWD(fn, ...) extern "C" void fn(void) { static const Tmpl t[] = {__VA_ARGS__}; clientFamilies(t, sizeof(t) / sizeof(*t), 65536, false); }
-#define SERVER(fn, ...) extern "C" void fn(void) { static const Tmpl t[] = {__VA_ARGS__}; serverFamilies(t, sizeof(t) / sizeof(*t)); }
+#define CLIENT2(fn, ...) static void fn(void) { static const Tmpl t[] = {__VA_ARGS__}; clientFamilies(t, sizeof(t) / sizeof(*t), true); }
+#define CLIENT(fn, ...) static void fn(void) { static const Tmpl t[] = {__VA_ARGS__}; clientFamilies(t, sizeof(t) / sizeof(*t), false); }
+#define CLIENT_CAP(fn, cap, ...) static void fn(void) { static const Tmpl t[] = {__VA_ARGS__}; clientFamilies(t, sizeof(t) / sizeof(*t), false, cap); }
+#define CLIENT_FWD(fn, ...) static void fn(void) { static const Tmpl t[] = {__VA_ARGS__}; clientFamilies(t, sizeof(t) / sizeof(*t), false, 65536, false); }
+#define SERVER2(fn, ...) static void fn(void) { static const Tmpl t[] = {__VA_ARGS__}; serverFamilies(t, sizeof(t) / sizeof(*t), true); }
+#define SERVER(fn, ...) static void fn(void) { static const Tmpl t[] = {__VA_ARGS__}; serverFamilies(t, sizeof(t) / sizeof(*t), false); }
 
 // ---- requests
-// request-line: both delimiters and a target byte; everything after the version; leading garbage and the terminator
-CLIENT(c09_req_line,
+// request-line: both delimiters and a target byte; everything after the version; the version token (HTTP/0.9 included);
+// thorough: leading garbage and the terminator, method bytes
+CLIENT2(f_req_line,
        L("GET\x01\x01\x01HTTP/1.1\r\n\r\n"),
        L("GET / HTTP/1.1\x01\x01\x01"),
-       L("\x01\x01GET / HTTP/1.0\r\n\x01\n"))
-// method bytes and the version token (HTTP/0.9 included)
-CLIENT(c09_req_method_version,
-       L("\x01\x01T / HTTP/1.1\r\nH: v\r\n\r\n"),
-       L("GET /\x01HTTP/\x01.\x01\r\n\r\n"))
-// request-target: authority and port of an absolute URI, CONNECT authority, origin-form path with a Host field (intercepted port)
-CLIENT(c09_req_target,
+       L("GET /\x01HTTP/\x01.\x01\r\n\r\n")
+#ifdef VF_THOROUGH
+       , L("\x01\x01GET / HTTP/1.0\r\n\x01\n"),
+       L("\x01\x01T / HTTP/1.1\r\nH: v\r\n\r\n")
+#endif
+       )
+// request-target: authority and port of an absolute URI, CONNECT authority; thorough: bracketed IPv6, userinfo,
+// origin-form path with a Host field
+CLIENT(f_req_target,
        L("GET http://\x01\x01.a/ HTTP/1.1\r\n\r\n"),
        L("GET http://h.a:\x01\x01/ HTTP/1.1\r\n\r\n"),
-       L("CONNECT \x01\x01:44\x01 HTTP/1.1\r\n\r\n"),
-       L("GET /\x01\x01 HTTP/1.0\r\nHost: a\x01\r\n\r\n"))
-CLIENT_FWD(c09_req_target2,
-       L("GET http://[fc00::\x01]\x01" "8/ HTTP/1.1\r\n\r\n"),
+       L("CONNECT \x01\x01:44\x01 HTTP/1.1\r\n\r\n")
+#ifdef VF_THOROUGH
+       , L("GET http://[fc00::\x01]\x01" "8/ HTTP/1.1\r\n\r\n"),
        L("GET ftp://u\x01p@h.a\x01/ HTTP/1.1\r\n\r\n"),
-       L("GET \x01\x01\x01 HTTP/1.1\r\n\r\n"))
+       L("GET /\x01\x01 HTTP/1.0\r\nHost: a\x01\r\n\r\n")
+#endif
+       )
+// a short fully symbolic request-target on a forward-proxy port
+CLIENT_FWD(f_req_target_any,
+       L(T("GET \x01\x01\x01 HTTP/1.1\r\n\r\n", "GET \x01\x01\x01\x01 HTTP/1.1\r\n\r\n")))
 // header block structure: colon, line ends, folding, terminator
-CLIENT(c09_req_hdr,
+CLIENT(f_req_hdr,
        L("GET / HTTP/1.1\r\nHost\x01:v\r\nX: y\r\n\r\n"),
        L("GET / HTTP/1.1\r\nA: b\x01\x01X: y\r\n\r\n"),
        L("GET / HTTP/1.1\r\nA: b\r\n\x01\x01\r\nX: y\r\n\r\n"),
        L("GET / HTTP/1.1\r\nX: y\r\n\x01\x01\r\n"))
 // field values that HttpRequest::parseHeader() interprets: framing, Range, Cache-Control, Connection, Max-Forwards
-CLIENT(c09_req_fields,
+CLIENT(f_req_fields,
        L(T("POST / HTTP/1.1\r\nContent-Length: 1\x01\r\nContent-Length:\x01" "1\r\n\r\n",
            "POST / HTTP/1.1\r\nContent-Length: \x01\x01\r\nContent-Length:\x01" "1\r\n\r\n")),
        L(T("GET / HTTP/1.1\r\nRange: bytes=\x01-\x01\r\n\r\n",
            "GET / HTTP/1.1\r\nRange: bytes=\x01\x01-\x01\r\n\r\n")),
        L(T("GET / HTTP/1.1\r\nCache-Control: max-age=\x01,\x01\r\n\r\n",
            "GET / HTTP/1.1\r\nCache-Control: max-age=\x01\x01,\x01\r\n\r\n")))
-CLIENT(c09_req_fields2,
+CLIENT(f_req_fields2,
        L(T("OPTIONS * HTTP/1.1\r\nMax-Forwards: \x01\r\nConnection:\x01" "close\r\n\r\n",
            "OPTIONS * HTTP/1.1\r\nMax-Forwards: \x01\x01\r\nConnection:\x01" "close\r\n\r\n")),
        L(T("POST / HTTP/1.\x01\r\nTransfer-Encoding:\x01" "chunked\r\n\r\n0\r\n\r\n",
            "POST / HTTP/1.\x01\r\nTransfer-Encoding:\x01" "chunked\x01\r\n\r\n0\r\n\r\n")))
 // chunked request body behind a fixed head; output space of 1 or 3 bytes so that the parser is re-entered for lack of space
 #define RQ "POST / HTTP/1.1\r\nTransfer-Encoding: chunked\r\n\r\n"
-CLIENT_CAP(c09_req_chunked, (vf_concretize(vf_range(0, 1, "cap")) ? 3 : 1),
+CLIENT_CAP(f_req_chunked, T(1, (vf_concretize(vf_range(0, 1, "cap")) ? 3 : 1)),
        L(RQ "\x02" "2\r\nab\r\n0\r\n\r\n"),
        L(RQ "2\x02\r\nab\r\n0\r\n\r\n"),
        L(RQ "1;\x01\x01\x01\r\nX\r\n0\r\n\r\n"),
        L(RQ "2\r\nXY\x01\x01" "0\r\n\r\n"),
        L(RQ "1\r\nX\r\n0\r\n\x01\x01\x01"))
 // two pipelined requests with symbolic bytes around the boundary
-CLIENT(c09_req_pipeline,
+CLIENT(f_req_pipeline,
        L("GET / HTTP/1.1\r\n\x01\n\x01" "ET / HTTP/1.1\r\n\r\n"),
        L(RQ "0\r\n\r\n\x01\x01T / HTTP/1.0\r\n\r\n"))
 
 // request_header_max_size close to the message size
-extern "C" void c09_req_limit(void)
+static void f_req_limit(void)
 {
     const unsigned lim = vf_range(8, 44, "maxRequestHeaderSize");
     configure(relaxedSetting(), lim, 65536);
-    static const char lit[] = "GET /abcdefgh HTTP/1.1\x01\nHost: x\r\n\x01\n";
+    static const char lit[] = T("GET /abcdefgh HTTP/1.1\r\nHost: x\r\n\x01\n", "GET /abcdefgh HTTP/1.1\x01\nHost: x\r\n\x01\n");
     static Stream s; fill(s, lit, sizeof(lit) - 1);
     clientStream(s, 65536);
 }
 
 // short fully symbolic request streams
-#define NREQ T(4, 6)
-extern "C" void c09_req_any(void)
+#define NREQ T(3, 5)
+static void f_req_any(void)
 {
     configure(relaxedSetting(), 65536, 65536);
     static Stream s;
@@ -597,33 +617,33 @@ extern "C" void c09_req_any(void)
 // ---- replies
 #define RP "HTTP/1.1 200 OK\r\n"
 // status-line: status bytes, delimiters, minor version, reason, damaged magic (HTTP/0.9), ICY
-SERVER(c09_rep_line,
+SERVER2(f_rep_line,
        L("HTTP/1.1 \x01\x01\x01 OK\r\n\r\n"),
        L("HTTP/1.\x01\x01" "200\x01OK\x01\n\r\n"),
        L("HTTP/1.0 404 \x01\x01\x01\n\r\n"),
        L("\x01TTP\x01" "1\x01" "1 200 OK\r\n\r\n"),
        L("ICY\x01" "40\x01\x01" "\r\n\r\n"))
 // header block structure
-SERVER(c09_rep_hdr,
+SERVER(f_rep_hdr,
        L(RP "Host\x01:v\r\nX: y\r\n\r\n"),
        L(RP "A: b\x01\x01X: y\r\n\r\n"),
        L(RP "A: b\r\n\x01\x01\r\nX: y\r\n\r\n"),
        L("HTTP/1.1 200 OK\x01\nA: b\x01\x01\r\n\x01\n"))
 // field values that HttpReply::parseHeader() interprets
-SERVER(c09_rep_fields,
+SERVER(f_rep_fields,
        L(T(RP "Content-Length: 1\x01\r\nContent-Length:\x01" "1\r\n\r\nab",
            RP "Content-Length: \x01\x01\r\nContent-Length:\x01" "1\r\n\r\nab")),
        L(T(RP "Cache-Control: max-age=\x01,\x01\r\n\r\n",
            RP "Cache-Control: max-age=\x01\x01,\x01\r\n\r\n")),
        L(T("HTTP/1.1 206 Partial Content\r\nContent-Range: bytes \x01-1/\x01\r\n\r\n",
            "HTTP/1.1 206 Partial Content\r\nContent-Range: bytes \x01-\x01/\x01\r\n\r\n")))
-SERVER(c09_rep_fields2,
+SERVER(f_rep_fields2,
        L(T(RP "Surrogate-Control: max-age=\x01;\x01\r\n\r\n",
            RP "Surrogate-Control: max-age=\x01\x01;\x01\r\n\r\n")),
        L(T(RP "Connection:\x01" "close\r\nContent-Type: a/b\x01\r\n\r\n",
            RP "Connection:\x01" "close\r\nContent-Type: a/b\x01\x01\r\n\r\n")))
 // dates: a byte of each element of the three date formats Time::ParseRfc1123() accepts, and a short free-form value
-SERVER(c09_rep_dates,
+SERVER(f_rep_dates,
        L(T(RP "Date: Sun, 06 Nov 1994 08:49:\x01\x01 GMT\r\n\r\n",
            RP "Date: Sun, 06 Nov 1994 08:49:\x01\x01 GMT\r\nExpires: \x01\x01\r\n\r\n")),
        L(T(RP "Expires: \x01\x01\r\n\r\n",
@@ -631,36 +651,36 @@ SERVER(c09_rep_dates,
        L(T(RP "Last-Modified: Sunday, 06-Nov-94 08:\x01\x01:37 GMT\r\n\r\n",
            RP "Last-Modified: Sunday, 06-Nov-94 08:\x01\x01:37 GMT\r\nKeep-Alive:\x01\r\n\r\n")))
 // 1xx control messages in front of the final reply
-SERVER(c09_rep_1xx,
+SERVER(f_rep_1xx,
        L("HTTP/1.1 1\x01\x01 C\r\n\r\n" RP "\r\n"),
        L("HTTP/1.1 100 Continue\r\n\x01\nHTTP/1.\x01 200 OK\r\n\r\n"))
 // chunked reply body behind a fixed head
 #define RC RP "Transfer-Encoding: chunked\r\n\r\n"
-SERVER(c09_rep_chunked,
+SERVER(f_rep_chunked,
        L(RC "\x02" "2\r\nab\r\n0\r\n\r\n"),
        L(RC "2\x02\r\nab\r\n0\r\n\r\n"),
        L(RC "1;\x01\x01\x01\r\nX\r\n0\r\n\r\n"),
        L(RC "2\r\nXY\x01\x01" "0\r\n\r\n"),
        L(RC "1\r\nX\r\n0\r\n\x01\x01\x01"))
-SERVER(c09_rep_chunked2,
+SERVER(f_rep_chunked2,
        L(RC "1;a=\"\x01\x01\x01\"\r\nX\r\n0\r\n\r\n"),
        L(RC "1\r\nX\r\n\x02\r\n\r\n"),
        L(RC "\x01" "fffffffffffffff\x01\r\nX"),
        L(RP "Transfer-Encoding:\x01" "chunked\x01\r\n\r\n0\r\n\r\n"))
 
 // reply_header_max_size close to the message size
-extern "C" void c09_rep_limit(void)
+static void f_rep_limit(void)
 {
     const unsigned lim = vf_range(8, 44, "maxReplyHeaderSize");
     configure(relaxedSetting(), 65536, lim);
-    static const char lit[] = "HTTP/1.1 200 OK\x01\nServer: abcdefg\r\n\x01\n";
+    static const char lit[] = T("HTTP/1.1 200 OK\r\nServer: abcdefg\r\n\x01\n", "HTTP/1.1 200 OK\x01\nServer: abcdefg\r\n\x01\n");
     static Stream s; fill(s, lit, sizeof(lit) - 1);
     serverStream(s);
 }
 
 // short fully symbolic reply streams
 #define NREP T(5, 7)
-extern "C" void c09_rep_any(void)
+static void f_rep_any(void)
 {
     configure(relaxedSetting(), 65536, 65536);
     static Stream s;
@@ -671,10 +691,10 @@ extern "C" void c09_rep_any(void)
 }
 
 // short fully symbolic chunked bodies (the head has been parsed already)
-#define NCHUNK 2
-extern "C" void c09_chunk_any(void)
+#define NCHUNK T(1, 2)
+static void f_chunk_any(void)
 {
-    configure(T(1, relaxedSetting()), 65536, 65536);
+    configure(relaxedSetting(false), 65536, 65536);
     static Stream s;
     static const char head[] = RC;
     unsigned n = sizeof(head) - 1;
@@ -685,3 +705,20 @@ extern "C" void c09_chunk_any(void)
     s.n = n; s.symHi = n;
     serverStream(s);
 }
+
+// ---------------------------------------------------------------------------------------------- entries
+// A few families per entry (fewer engine start-ups and native replay binaries); the family is a case split.
+typedef void Family(void);
+static void pick(Family *const *f, const unsigned n) { f[n > 1 ? vf_concretize(vf_range(0, n - 1, "family")) : 0](); }
+#define ENTRY(name, ...) extern "C" void name(void) { static Family *const f[] = {__VA_ARGS__}; pick(f, sizeof(f) / sizeof(*f)); }
+ENTRY(c09_req_any, f_req_any, f_req_target_any)
+ENTRY(c09_req_line, f_req_line)
+ENTRY(c09_req_target, f_req_target)
+ENTRY(c09_req_hdr, f_req_hdr, f_req_pipeline)
+ENTRY(c09_req_fields, f_req_fields, f_req_fields2)
+ENTRY(c09_req_body, f_req_chunked, f_req_limit)
+ENTRY(c09_rep_any, f_rep_any, f_chunk_any)
+ENTRY(c09_rep_line, f_rep_line, f_rep_1xx, f_rep_limit)
+ENTRY(c09_rep_hdr, f_rep_hdr, f_rep_dates)
+ENTRY(c09_rep_fields, f_rep_fields, f_rep_fields2)
+ENTRY(c09_rep_chunked, f_rep_chunked, f_rep_chunked2)
